@@ -222,6 +222,52 @@ pub fn run_check(replay: Option<Value>) -> i32 {
         out.sample = Some(desc);
         Some(out)
     });
+    // tiny spans (3e-13 and 4e-14, below every absolute time constant of the library): requesting output
+    // must not turn the run into something else (e.g. into the zero-length shortcut)
+    let tdims = vec![dim("method", &M6.iter().map(|m| mname(*m)).collect::<Vec<_>>()), dim("direction", &["forward", "backward(reflected)"]), dim("span", &[3e-13, 4e-14])];
+    lattice(&mut rep, "tiny", &tdims, only.as_deref(), |key, idx| {
+        let m = M6[idx[0]];
+        let p0 = crate::problems::timescale(&base(Base::Harmonic(1.0)), 1e13);
+        let p = if idx[1] == 1 { reflect(&p0) } else { p0 };
+        let span = [3e-13, 4e-14][idx[2]];
+        let xend = if idx[1] == 1 { -span } else { span };
+        let mut c0 = Cfg::new(m, 0.0, xend, &p.y0).tol(1e-6, 1e-8);
+        c0.user_jac = true;
+        let desc = json!({"key": key, "point": describe(&tdims, idx), "cfg": c0.json(&p.name)});
+        let mut out = CaseOut::default();
+        let plain = run(&p, &c0);
+        let ps = match &plain.out {
+            Outcome::Ok(s) => s,
+            _ => {
+                out.violations.push(Violation::new(key, "outcome", format!("plain run over a span of {:e} ended with {}", span, plain.outcome_name()), desc).with("method", mname(m)));
+                return Some(out);
+            }
+        };
+        out.events = plain.st.n_ode;
+        for (label, dense, te) in [("{dense}", true, false), ("{t_eval}", false, true), ("{t_eval dense}", true, true)] {
+            let mut c = c0.clone();
+            c.dense = dense;
+            if te {
+                c.t_eval = Some(vec![0.0, xend / 3.0, xend]);
+            }
+            let r = run(&p, &c);
+            out.events += r.st.n_ode;
+            match &r.out {
+                Outcome::Ok(s) => {
+                    let st = |s: &Solution| (s.nfev, s.njev, s.nlu, s.nstep, s.naccpt, s.nrejct);
+                    if s.status != ps.status || r.st.fp != plain.st.fp || st(s) != st(ps) {
+                        out.violations.push(Violation::new(key, "integration-perturbed", format!("subset {} over a span of {:e}: status {:?} (plain {:?}), statistics {:?} (plain {:?}), RHS record {}", label, span, s.status, ps.status, st(s), st(ps), if r.st.fp == plain.st.fp { "identical" } else { "differs" }), desc.clone()).with("method", mname(m)));
+                    }
+                    out.validated += 1;
+                }
+                _ => out.violations.push(Violation::new(key, "outcome", format!("subset {} ended with {}", label, r.outcome_name()), desc.clone()).with("method", mname(m))),
+            }
+        }
+        out.tag("tiny-span");
+        out.fp = Some(plain.st.fp.as_u128() ^ 0x20);
+        out.sample = Some(desc);
+        Some(out)
+    });
     if only.is_some() {
         for v in &rep.violations {
             println!("replay: VIOLATED [{}]: {}\n{}", v.sig["check"], v.msg, serde_json::to_string_pretty(&v.case).unwrap());
@@ -233,6 +279,7 @@ pub fn run_check(replay: Option<Value>) -> i32 {
     }
     rep.require("eight-subsets", 100);
     rep.require("long-run", 6);
+    rep.require("tiny-span", 12);
     rep.rule = "for every lattice point the plain run and all 8 subsets of {t_eval, dense_output, non-terminal events} are run twice; oracle: identical 128-bit fingerprint of every non-Jacobian RHS call (time and state bits: the complete record of the integration), identical statistics, identical accepted steps and states when no t_eval is given, final state, repeatability; runs of more than 1.3e5 accepted steps with {dense}, {t_eval}, {t_eval dense}; distinct = distinct plain-run fingerprints".into();
     rep.finish()
 }
